@@ -159,7 +159,10 @@ class SCPConnection(object):
 
         # Calculate the receive length, this should be the smallest power of
         # two greater than the required size
-        max_length = buffer_size + consts.SDP_HEADER_LENGTH
+        # NB: As well as the data and SDP header, a datagram carries two
+        # padding bytes and the SCP header (cmd_rc, seq and up to three
+        # arguments).
+        max_length = buffer_size + consts.SDP_HEADER_LENGTH + 2 + 16
         receive_length = int(2**math.ceil(math.log(max_length, 2)))
 
         class TransmittedPacket(object):
